@@ -6,7 +6,6 @@ operator of the result is compared with the reference contraction later . earlie
 first-order error rule of the statement.
 """
 
-import os
 import shutil
 
 import numpy as np
@@ -95,7 +94,6 @@ def evaluate(case):
     d.mkdir(parents=True, exist_ok=True)
     p_ini, p_fin, p_new = d / "ini.tar", d / "fin.tar", d / "new.tar"
     where = f"case={case}"
-    info = {}
     try:
         T.make_archive(p_ini, MU0, LAYOUTS[case["layout"]], ini_ops, xgrid)
         fin_mu = (MU1[0] * (1.0 + m["delta"])) ** 0.5
@@ -173,8 +171,9 @@ def evaluate(case):
                         continue
                     overlap = "replaced"
                 dev = float(np.max(np.abs(val - ref) / (scale + 1e-300)))
-                max_val = max(max_val, dev)
-                if not dev <= RT:
+                if dev <= RT:
+                    max_val = max(max_val, dev)  # head-room of the rounding allowance on agreeing operators
+                else:
                     swapped = float(np.max(np.abs(val - T.compose(E, L))))
                     idx = np.unravel_index(np.argmax(np.abs(val - ref)), val.shape)
                     res.fail(
@@ -188,8 +187,9 @@ def evaluate(case):
                         continue
                     eref = T.compose_error(L, dL, E, dE)
                     edev = float(np.max(np.abs(err - eref) / (eref + 1e-300)))
-                    max_err = max(max_err, edev)
-                    if not edev <= 1e-12:
+                    if edev <= 1e-12:
+                        max_err = max(max_err, edev)
+                    else:
                         idx = np.unravel_index(np.argmax(np.abs(err - eref)), err.shape)
                         res.fail(
                             "ekos_product/error",
@@ -201,8 +201,7 @@ def evaluate(case):
                         "ekos_product/error-invented",
                         f"{where}: error tensor at {ep} although a factor has none (the solver's rule gives none)",
                     )
-        info.update(max_value_dev_over_RT=max_val / RT, max_error_reldev=max_err)
-        res.info = {"max_value_reldev": max_val, "max_error_reldev": max_err}
+        res.info = {"max_value_reldev_where_agreeing": max_val, "max_error_reldev_where_agreeing": max_err}
         res.outcome = f"composed:{case['mode']}:err={case['err']}:overlap={overlap}"
         # non-trivial: the two factors really do not commute, so an order error is visible
         L0 = next(iter(fin_ops.values()))[0]
